@@ -13,6 +13,8 @@ Templates == <<
   "[a](<http://e.org/c) and ![i](<p.png \"t\")", "[a](<http://e.org/c>) [r]\n\n[r]: <http://e.org/d",
   \* metadata the package documents of EPUB / OpenDocument quote (dates, identifiers, names): a character at every byte offset of the value
   "Title: T\nDate: 2026 10 1 x\nAuthor: A B\nuuid: id 1\nCopyright: c\nLanguage: en\n\nbody",
+  \* CriticMarkup inside CriticMarkup (the accept / reject passes edit the text in place, from the back)
+  "a {~~ab~>x{++y++}z~~} b {++c{--d--}e++} f {==g{>>h<<}==} i",
   \* an outline as the library's own OPML export spells white space (read with the OPML import switched on): a character next to every reference
   "<opml version=\"1.0\"><body><outline text=\"T\" _note=\"a&#9;b&#10;c&#13;d&amp;e\"/></body></opml>" >>
 VARIABLE c
